@@ -102,7 +102,7 @@ def depth(t):
     return 0 if not t["args"] else 1 + max(depth(a) for a in t["args"])
 
 
-def _layer(args1, args2, base, unions=True):
+def _layer(args1, args2, unions=True):
     """All one-constructor applications: unary over args1, binary over args1 x args2."""
     out = []
     for a in args1:
@@ -119,16 +119,17 @@ def _layer(args1, args2, base, unions=True):
 
 
 def type_universe(tier, seed):
-    """Closed universe: all terms of depth <= 1 over the base, all unary constructors at depth 2,
-    binary constructors at depth 2 with one depth-1 argument and one base argument (exhaustive for
-    a seeded sample under a cap: 90 terms in the quick tier, 520 in the thorough tier).
-    Terms are read back from the real typing objects, so Union normalisation is Python's."""
+    """Closed universe: ALL terms of depth <= 1 over the base {int, bool, str, A, B<:A, Any} (list[.],
+    dict[.,.], tuple[.,.], Optional[.], .|., and the unparameterised list / dict / tuple), plus depth-2
+    terms (unary constructors over every depth-1 term, binary constructors with one or two depth-1
+    arguments) drawn as a seeded sample under a cap: 90 terms in the quick tier, 520 in the thorough
+    tier.  Terms are read back from the real typing objects, so Union normalisation is Python's."""
     rng = random.Random(seed)
     base = [T(k) for k in ("int", "bool", "str", "A", "B", "any")]
     cap2 = 520 if tier == "thorough" else 90
     bare = [T("list"), T("dict"), T("tuple")]
     d0 = base + [T("none")]
-    d1 = _layer(base, base, base) + bare
+    d1 = _layer(base, base) + bare
     d1 = _dedup(d0 + d1)
     deep_args = [t for t in d1 if depth(t) == 1 or t in bare]
     un = []
